@@ -83,6 +83,7 @@ def lease_init(E):
     E.prove('init:created_now', I(lease.attrs['_lease_created_at'].attrs['t']) == I(now))
     E.prove('init:nothing_used', lease.attrs['_request_counter'] == 0)
     E.prove('init:grant', I(lease.attrs['maximum_request_count']) == I(mx))
+    E.prove('init:ttl_is_exactly_the_given_period[zero included]', I(lease.attrs['maximum_lease_time'].attrs['us']) == I(ms) * 1000)
     fr = E.call(E.getattr(lease, 'to_frame'), [])
     E.prove('to_frame:is_lease_frame', fr.cls is E.lookup(FR + 'LeaseFrame'))
     E.prove('to_frame:granted_count', I(E.getattr(fr, 'number_of_requests')) == I(mx))
